@@ -364,6 +364,66 @@ def rule_ref(ctx: Ctx) -> RuleReport:
             rep.fail(Finding("C14-REF", PPTX, f.qual, t, f"a '..' component is honoured only `if {t}`: targets that climb out of /ppt (../../media/x.png) resolve to the wrong part, so another image's bytes (or none) are returned", line=p.lineno))
     if not pops:
         rep.fail(Finding("C14-REF", PPTX, f.qual, body_txt[:120], "'..' components are no longer resolved", line=f.node.lineno))
+    # OPC (ECMA-376 part 2, 8.3): a relationship target is relative to the directory of its source part, or -- with a leading slash -- to
+    # the package root. Gluing a directory in front of the target is right for the plain relative form only.
+    DOCX_ = X + "ms_modern/docx_extractor.py"
+    n_sites = 0
+    for rel in (DOCX_, PPTX):
+        m = ctx.p.module(rel)
+        for fi in m.functions.values():
+            if fi.parent is not None:
+                continue
+            for e in ast.walk(fi.node):
+                glued = None
+                if isinstance(e, ast.BinOp) and isinstance(e.op, ast.Add) and isinstance(e.left, ast.Constant) and isinstance(e.left.value, str) and e.left.value.endswith("/") and isinstance(e.right, ast.Name):
+                    glued = (e.left.value, e.right.id)
+                elif isinstance(e, ast.JoinedStr) and len(e.values) >= 2 and isinstance(e.values[-1], ast.FormattedValue) and isinstance(e.values[-1].value, ast.Name):
+                    lit = "".join(str(v.value) for v in e.values[:-1] if isinstance(v, ast.Constant))
+                    dyn = [v for v in e.values[:-1] if isinstance(v, ast.FormattedValue)]
+                    if (lit.endswith("/") and len(dyn) <= 1):
+                        glued = (lit if not dyn else "{" + norm(dyn[0].value) + "}" + lit, e.values[-1].value.id)
+                if glued is None or "target" not in glued[1].lower():
+                    continue
+                n_sites += 1
+                rep.unit(fi.key)
+                var = glued[1]
+                conds, opaque, _ = path_conditions(fi.node, e, terminals=("continue", "return", "break", "raise"))
+                cs = {str(c) for c in conds} | set(opaque)
+                absolute_handled = any(c == f"not {var}.startswith('/')" for c in cs)
+                in_absolute_branch = any(c == f"{var}.startswith('/')" for c in cs)
+                if absolute_handled and not in_absolute_branch:
+                    rep.ok({"opc_target": f"{fi.qual}: {short(e, 40)}", "absolute_form": "handled before", "under": sorted(cs)[:3]})
+                else:
+                    rep.fail(Finding("C14-REF", rel, fi.qual, f"directory glued in front of the target: {anorm(e, fi.node)}", f"`{short(e, 50)}` puts a directory in front of a relationship target whatever its form: Target=\"/word/media/image1.png\" (relative to the package root) becomes 'word//word/media/image1.png', the part is not found and the image, header or slide is silently missing", line=e.lineno))
+    if n_sites < 3:
+        raise AnalysisError(f"C14-REF: only {n_sites} places that build a part name from a relationship target were found (3 confirmed)")
+    # XLSX: which part a sheet tab is stored in is said by xl/workbook.xml + xl/_rels/workbook.xml.rels; "sheet<position>.xml" is a guess that
+    # fails as soon as tabs were re-ordered or a sheet was deleted. A position-built part name may only be the fallback when the workbook's
+    # own mapping has no answer.
+    XLSX_ = X + "ms_modern/xlsx_extractor.py"
+    xm = ctx.p.module(XLSX_)
+    mappers = {f.name for f in xm.functions.values() if any(isinstance(c, ast.Constant) and c.value == "xl/_rels/workbook.xml.rels" for c in ast.walk(f.node))}
+    n_guess = 0
+    for fi in xm.functions.values():
+        mapped = {a.targets[0].id for a in walk_own(fi.node) if isinstance(a, ast.Assign) and len(a.targets) == 1 and isinstance(a.targets[0], ast.Name) and isinstance(a.value, ast.Call)
+                  and isinstance(a.value.func, ast.Name) and a.value.func.id in mappers}
+        for e in walk_own(fi.node):
+            if not isinstance(e, ast.JoinedStr):
+                continue
+            lits = [str(v.value) for v in e.values if isinstance(v, ast.Constant)]
+            if not (any(l.endswith("sheet") for l in lits) and any(".xml" in l for l in lits) and any(isinstance(v, ast.FormattedValue) for v in e.values)):
+                continue
+            n_guess += 1
+            rep.unit(fi.key)
+            conds, opaque, _ = path_conditions(fi.node, e)
+            cs = [str(c) for c in conds] + list(opaque)
+            fallback = any(c.startswith("not ") and any(v in c for v in mapped) for c in cs)
+            if fallback:
+                rep.ok({"xlsx_part_guess": f"{fi.qual}: {short(e, 50)}", "only_when": [c for c in cs if c.startswith("not ")][:2]})
+            else:
+                rep.fail(Finding("C14-REF", XLSX_, fi.qual, "part name guessed from the tab position: " + anorm(e, fi.node), f"`{short(e, 60)}` takes the n-th tab to be stored in sheet<n>.xml; tabs that were re-ordered, or a workbook whose first sheet was deleted, keep other part names: the picture is reported on the wrong sheet or lost", line=e.lineno))
+    if n_guess == 0 and not mappers:
+        raise AnalysisError("C14-REF: the XLSX reader neither maps tabs through workbook.xml.rels nor builds sheet part names: image attribution not recognised")
     # EPUB: manifest hrefs are IRI references relative to the OPF document: percent-decoded, fragment removed, dot segments resolved
     EPUBX = X + "epub_extractor.py"
     rh = ctx.p.func(EPUBX, "_EpubContext.resolve_href")
